@@ -100,9 +100,10 @@ Definition nontrivial_case (inp : list Z) : bool :=
   let res := run c ns rounds ([], []) in
   existsb (fun r => negb (is_nil (fst r))) res.
 
-(* known finding 1: ConsecutiveAbnormalities also counts rounds that are not consecutive *)
+(* known finding 1: ConsecutiveAbnormalities also counts rounds that are not consecutive.
+   Once the repair is in ([reset_on_normal] = true) clause 7 is an ordinary violation. *)
 Definition finding_sig (inp obs : list Z) : Z :=
-  if prop_case inp obs =? 7 then 1 else 0.
+  if reset_on_normal then 0 else if prop_case inp obs =? 7 then 1 else 0.
 
 Require Extraction.
 Require Import ExtrOcamlBasic.
